@@ -6,7 +6,7 @@
 (* verdict of every event is total: a set of failing clause names (empty = *)
 (* accepted) printed as JSON {"V": id, "c": [clauses]}.                              *)
 (***************************************************************************)
-EXTENDS Json, IOUtils, TLC, JSearch, JArrays, JProcess, JRfa, JRfaRel, JMatch
+EXTENDS Json, IOUtils, TLC, JSearch, JArrays, JProcess, JRfa, JRfaRel, JMatch, JPipeline
 
 Trace == JsonDeserialize(IOEnv.TRACE_FILE)
 Chunk == atoi(IOEnv.TRACE_CHUNK)
@@ -46,6 +46,7 @@ Verdict(e) ==
       [] e.fn = "funfit" -> V_funfit(e)
       [] e.fn = "rfa_rel" -> V_rfa_rel(e)
       [] e.fn = "match" -> V_match(e)
+      [] e.fn = "pipeline" -> V_pipeline(e)
       [] OTHER -> {"machinery.unknown_fn"}
 
 \* one line of JSON per event (TLC pretty-prints long tuples over several lines; a JSON string stays on one)
